@@ -87,6 +87,7 @@ class Obj:
         # version) states the object can be in (None = needs compiling)
         self.taint_pairs: list | None = None
         self.pre_version = None
+        self.pre_seen = None
         self.prepend = True       # own directory first for load:
 
 
@@ -568,6 +569,7 @@ class C16(CheckBase):
             cur = fsm.get(ob.path)
             accept = []
             ob.pre_version = ob.version
+            ob.pre_seen = ob.seen
             if ob.auto_reload or ob.seen is None:
                 m = mtime_of(ob.path)
                 if ob.seen is None or m != ob.seen:
@@ -1206,6 +1208,11 @@ class C16(CheckBase):
                 o.taint_versions = [o.version] if o.version else []
                 if o.pre_version and o.pre_version not in o.taint_versions:
                     o.taint_versions.append(o.pre_version)
+                if o.pre_seen is not None:
+                    # (the fault may have struck before the object looked
+                    # at its file at all: it then still has on record the
+                    # time it had before this use)
+                    o.taint_mtimes.add(o.pre_seen)
             o.tainted = True
             o.count_unknown = True
             o.taint_mtimes.add(mtime_of(o.path))
